@@ -14,6 +14,14 @@ impl Polynomial {
     }
 }
 
+// Verification hook (only with `--cfg spindalis_verif`): read access to the parsed tree
+#[cfg(spindalis_verif)]
+impl Polynomial {
+    pub fn expr(&self) -> &Expr {
+        &self.expr
+    }
+}
+
 impl std::fmt::Display for Polynomial {
     fn fmt(&self, f: &mut std::fmt::Formatter<'_>) -> std::fmt::Result {
         write!(f, "{}", self.expr)
